@@ -224,7 +224,7 @@ def determinism_checks(pid, wire, mod, res, label):
     res['disagreements_checked'] += 2 * len(base)
 
 
-def run_sideb(pid, specs, props_filter=None, label='sideB', determinism=False):
+def run_sideb(pid, specs, props_filter=None, label='sideB', determinism=False, check_agreement=False):
     """Returns a result dict in the shape runner.write_evidence understands."""
     t0 = time.time()
     res = dict(entry=label, programs=len(specs), paths=0, completed=0, decisions=0, violations=[], confirmed=[], inconclusive_list=[],
@@ -304,6 +304,32 @@ def run_sideb(pid, specs, props_filter=None, label='sideB', determinism=False):
                 res['confirmed'].append(dict(cls='C20:rejected without a positioned diagnostic', props=['C20'],
                                              msg='wire gen rejected %s (%s) without any file:line:column diagnostic' % (sp.pkg, sp.label), artifact_dir=os.path.join(mod, sp.pkg), model=None, harness=label))
             res['disagreements_checked'] += 1
+    if check_agreement:
+        # C19: wire check agrees with wire gen, package by package (every must-reject program, and a sample of the others)
+        import concurrent.futures as cf
+        sample = [sp for sp in specs if sp.expect == 'reject'] + [sp for sp in specs if sp.expect == 'accept'][:40]
+
+        def chk(sp):
+            rc2, out2, err2, st2 = run_wire([wire, 'check', './' + sp.pkg], mod, timeout=120, mem_gb=4)
+            return sp, rc2, err2, st2
+        agree = 0
+        with cf.ThreadPoolExecutor(max_workers=8) as ex:
+            for sp, rc2, err2, st2 in ex.map(chk, sample):
+                gen_ok = sp.pkg in wrote
+                gen_failed = sp.pkg in gen_fail
+                if st2 or 'panic:' in err2:
+                    res['confirmed'].append(dict(cls='C19,C20:wire check crashed or did not terminate', props=['C19', 'C20'], msg='wire check ./%s (%s): %s' % (sp.pkg, sp.label, (st2 or err2[-200:])),
+                                                 artifact_dir=os.path.join(mod, sp.pkg), model=None, harness=label))
+                elif gen_failed and rc2 == 0:
+                    res['confirmed'].append(dict(cls='C19:wire check accepts what wire gen rejects', props=['C19'], msg='wire gen fails on %s (%s) but wire check ./%s exits 0' % (sp.pkg, sp.label, sp.pkg),
+                                                 artifact_dir=os.path.join(mod, sp.pkg), model=None, harness=label))
+                elif gen_ok and rc2 != 0:
+                    res['confirmed'].append(dict(cls='C19:wire check rejects what wire gen generates', props=['C19'], msg='wire gen writes %s (%s) but wire check ./%s exits %d: %s' % (sp.pkg, sp.label, sp.pkg, rc2, err2[-200:]),
+                                                 artifact_dir=os.path.join(mod, sp.pkg), model=None, harness=label))
+                else:
+                    agree += 1
+        res['extra']['check_agreement'] = dict(packages=len(sample), agree=agree)
+        res['disagreements_checked'] += len(sample)
     if determinism:
         determinism_checks(pid, wire, mod, res, label)
     # compile with the generated files standing in for the templates (C01)
